@@ -267,6 +267,32 @@ pub fn run(opts: &Opts) -> Report {
     let ops = all_ops(&[None, Some(0), Some(2)]);
     let rs = ranges(n);
 
+    // ---------- a known selection (one that carries a handle) against a selection taken by offset alone: the relation is
+    // one of ranges, the handle has no part in it ----------
+    {
+        let mut bstore = new_store();
+        bstore.add_resource(TextResourceBuilder::new().with_id("r").with_text(text)).expect("resource");
+        for (i, a) in rs.iter().enumerate() { let _ = bstore.annotate(AnnotationBuilder::new().with_id(format!("known{}", i)).with_target(SelectorBuilder::textselector("r", Offset::simple(a.0, a.1)))); }
+        let bres_item = bstore.resource("r").unwrap();
+        let bres: &TextResource = bres_item.as_ref();
+        for a in &rs {
+            let known: Option<TextSelection> = bres_item.textselection(&Offset::simple(a.0, a.1)).ok().map(|t| t.inner().clone());
+            let ta = match known { Some(t) if t.handle().is_some() => t, _ => continue };
+            for c in &rs {
+                let tc = ts(bres, *c);
+                for op in &ops {
+                    let o = op.to_op();
+                    let (g1, g2) = (guarded(|| ta.test(&o, &tc, bres)), guarded(|| tc.test(&o, &ta, bres)));
+                    let (w1, w2) = (naive(op, *a, *c, &ctx.text), naive(op, *c, *a, &ctx.text));
+                    rep.count("tt:known-vs-by-offset");
+                    let line = format!("known {}-{} {} by-offset {}-{}", a.0, a.1, op.proto(), c.0, c.1);
+                    if g1 != Ok(w1) { rep.fail(if g1.is_err() { "panic" } else { "oracle" }, &format!("pair-known-vs-by-offset/{}", op.sig()), vec![format!("text={:?}", text), line.clone()], &w1.to_string(), &b2s(&g1)); }
+                    if g2 != Ok(w2) { rep.fail(if g2.is_err() { "panic" } else { "oracle" }, &format!("pair-known-vs-by-offset/{}", op.sig()), vec![format!("text={:?}", text), format!("{} (the other way round)", line)], &w2.to_string(), &b2s(&g2)); }
+                }
+            }
+        }
+    }
+
     // ---------- pairwise, exhaustive ----------
     for a in &rs {
         for c in &rs {
